@@ -49,7 +49,7 @@ type c10Report struct {
 // hostile argument matrix: path-, URL- and command-like strings and other types
 func c10Args(canary string) []object.Object {
 	strs := []string{"VERIF_A", "VERIF_B", "VERIF_C", "VERIF_D", "VERIF_B_FILE", "VERIF_A_FILE", "/etc/passwd", canary, canary + ".new", "file:///etc/passwd", "file://" + canary, "127.0.0.1:1", "http://127.0.0.1:1/x", "|id", "; touch " + canary + ".cmd", "$(id)", "`id`",
-		"../../etc/passwd", "/dev/null", "/proc/self/environ", "HOME", "PATH", "TZ", "%s%s%s%n", "%v", "", "a", "(", "[a-", "*", "\\\\host\\share", "-rf /", "> " + canary + ".redir", "/tmp"}
+		"../../etc/passwd", "../../../etc/hostname", "../../../../etc/passwd", "../../.." + canary, "Europe/../../../.." + canary, "UTC", "Europe/Helsinki", "/dev/null", "/proc/self/environ", "HOME", "PATH", "TZ", "%s%s%s%n", "%v", "", "a", "(", "[a-", "*", "\\\\host\\share", "-rf /", "> " + canary + ".redir", "/tmp"}
 	var out []object.Object
 	for _, s := range strs {
 		out = append(out, &object.String{Value: s})
@@ -117,12 +117,26 @@ func c10Worker(args []string) {
 	os.Setenv("VERIF_D_CMD", "touch "+canary+".cmd")
 	os.Setenv("VERIF_D", "|touch "+canary+".cmd2")
 
+	// one representative of every type for the leading argument, so that every hostile
+	// string also meets every built-in as second / third argument of a call whose first
+	// argument has the type that built-in wants
+	firsts := []object.Object{&object.Integer{Value: 1700000000}, &object.String{Value: "abc"}, &object.Float{Value: 1.5}, &object.Boolean{Value: true}, &object.Null{},
+		&object.Array{Elements: []object.Object{&object.String{Value: "b"}, &object.String{Value: "a"}}}, eng.ToObject(model.Hash(model.HashEnt{Key: model.Str("k"), Val: model.Int(1)})), &object.Regexp{Value: "a"}}
+	var hostileStrs []object.Object
+	for _, a := range argv {
+		if _, ok := a.(*object.String); ok {
+			hostileStrs = append(hostileStrs, a)
+		}
+	}
 	marker("BEGIN")
 	for _, fn := range fns {
 		for k := 0; k <= 4; k++ {
 			reps := 1
 			if k > 0 {
-				reps = 40
+				reps = len(argv)
+			}
+			if k >= 2 {
+				reps = len(argv) + len(firsts)*len(hostileStrs)
 			}
 			names := make([]string, k)
 			for j := range names {
@@ -136,6 +150,15 @@ func c10Worker(args []string) {
 						vars[names[j]] = argv[(q)%len(argv)]
 					} else {
 						vars[names[j]] = argv[r.Intn(len(argv))]
+					}
+				}
+				if q >= len(argv) {
+					// systematic part: (type of the first argument) x (hostile string second)
+					p := q - len(argv)
+					vars[names[0]] = firsts[p/len(hostileStrs)]
+					vars[names[1]] = hostileStrs[p%len(hostileStrs)]
+					for j := 2; j < k; j++ {
+						vars[names[j]] = hostileStrs[r.Intn(len(hostileStrs))]
 					}
 				}
 				os.Setenv("TZ", zones[r.Intn(len(zones))])
@@ -342,6 +365,12 @@ func c10(c *ev.Ctx) {
 					tzReads++
 					return ""
 				}
+			}
+			if strings.HasSuffix(path, "/lib/time/zoneinfo.zip") {
+				// the Go runtime's own copy of the time-zone database ($GOROOT/lib/time), tried
+				// by time.LoadLocation after the system locations
+				tzReads++
+				return ""
 			}
 			if strings.Contains(rest, "ENOENT") && strings.Contains(path, "zoneinfo") {
 				tzReads++
